@@ -62,7 +62,7 @@ def run_positive(t):
         E = sc.enc
         sc.real_true('toTime(tau) > 0', E.lt_formula(R.VZERO, E.out('T')))
         sc.side_conditions('toTime')
-    fin.check('both branches reached', len(scs) == 2, '%d paths' % len(scs))
+    fin.check('both branches reached (vacuity guard)', len(scs) >= 2, '%d paths' % len(scs))
     return scs + [fin]
 
 
@@ -78,7 +78,7 @@ def run_increasing(t):
     for sc in scs:
         E = sc.enc
         sc.real_true('a < b  =>  toTime(a) < toTime(b)', E.lt_formula(E.out('Ta'), E.out('Tb')))
-    fin.check('three feasible branch combinations (neg/neg, neg/pos, pos/pos)', len(scs) == 3, '%d paths' % len(scs))
+    fin.check('at least the three branch combinations neg/neg, neg/pos, pos/pos explored (vacuity guard)', len(scs) >= 3, '%d paths' % len(scs))
     return scs + [fin]
 
 
@@ -104,7 +104,7 @@ def run_smooth(t):
             sc.real_eq('one-sided value at the switch == value of the other branch there (%s)' % v1, 'T', R.Val(v1), with_path=False)
             sc.real_eq('one-sided derivative at the switch == derivative of the other branch there (%s)' % d1, None, R.Val(d1), with_path=False, lhs_val=E.dwrt(E.out('T'), 'tau'))
             sc.post_subst = {}
-    fin.check('both branches reached', len(scs) == 2, '%d paths' % len(scs))
+    fin.check('both branches reached (vacuity guard)', len(scs) >= 2, '%d paths' % len(scs))
     return scs + [fin]
 
 
@@ -126,7 +126,7 @@ def run_inv1(t):
             r = R.solve('radicand', fs, t['timeout'])
             sc.queries += 1
             sc._rec('radicand of the square root in toTau is non-negative on this path', 'real', r.status if r.status != 'sat' else 'sat', r.t, h=hash(('rad', j)), confirmed=False, model=r.model)
-    fin.check('two feasible branch combinations', len(scs) == 2, '%d paths' % len(scs))
+    fin.check('at least two feasible branch combinations explored (vacuity guard)', len(scs) >= 2, '%d paths' % len(scs))
     return scs + [fin]
 
 
@@ -142,7 +142,7 @@ def run_inv2(t):
     for sc in scs:
         E = sc.enc
         sc.real_eq('toTime(toTau(T)) == T', 'V', E.node(sc.dag.varid['T']))
-    fin.check('two feasible branch combinations', len(scs) == 2, '%d paths' % len(scs))
+    fin.check('at least two feasible branch combinations explored (vacuity guard)', len(scs) >= 2, '%d paths' % len(scs))
     return scs + [fin]
 
 
@@ -162,7 +162,7 @@ def run_backward(t):
         dT = E.dwrt(E.out('T'), 'tau')
         sc.real_eq('backward(tau, T, g) == g * d toTime/d tau', 'B', E.mul(E.node(sc.dag.varid['g']), dT))
         sc.real_eq('backward is linear in the incoming gradient and does not depend on a stale T argument', 'B2', E.mul(E.node(sc.dag.varid['g']), dT))
-    fin.check('two feasible branch combinations', len(scs) == 2, '%d paths' % len(scs))
+    fin.check('at least two feasible branch combinations explored (vacuity guard)', len(scs) >= 2, '%d paths' % len(scs))
     return scs + [fin]
 
 
